@@ -478,6 +478,8 @@ pub(crate) fn remove_largest_matching_prefix<'a>(
 
             last_idx = idx;
         }
+
+        // The empty prefix is a candidate too; nothing is removed either way.
     }
     Ok(s)
 }
@@ -495,6 +497,11 @@ pub(crate) fn remove_smallest_matching_prefix<'a>(
     if let Some(pattern) = pattern {
         let re = pattern.to_regex(true, true)?;
         let mut indices = s.char_indices();
+
+        // The shortest candidate is the empty prefix.
+        if re.is_match("")? {
+            return Ok(s);
+        }
 
         #[allow(
             clippy::string_slice,
@@ -549,6 +556,12 @@ pub(crate) fn remove_smallest_matching_suffix<'a>(
 ) -> Result<&'a str, error::Error> {
     if let Some(pattern) = pattern {
         let re = pattern.to_regex(true, true)?;
+
+        // The shortest candidate is the empty suffix.
+        if re.is_match("")? {
+            return Ok(s);
+        }
+
         #[allow(
             clippy::string_slice,
             reason = "because we get the indices from char_indices()"
